@@ -969,6 +969,58 @@ func (w *bWorld) clientStep(d *bDID) {
 		return
 	}
 
+	// with an unpublished-operation store the node shows accepted operations at once: asked at the same moment by its
+	// short form and by its long form, the DID must show the same keys and services
+	if w.prop == "C20" && w.useUnpub && d.LongForm != "" {
+		// (both questions must see the same stores: other tasks run while a resolution waits for the store)
+		state := func() string {
+			n := 0
+			for _, o := range w.unpub.Ops[d.Suffix] {
+				n += len(o.OperationRequest)
+			}
+
+			return fmt.Sprintf("%d/%d/%d/%d/%v", w.store.PutN, len(w.store.Ops[d.Suffix]), len(w.unpub.Ops[d.Suffix]), n, w.proto.CurrentVersion().P.GenesisTime)
+		}
+
+		before := state()
+		sc, sm := w.get(bNS + ":" + d.Suffix)
+		lc, lm := w.get(d.LongForm)
+
+		if sc == http.StatusOK && lc == http.StatusOK && before == state() {
+			summary := func(m map[string]interface{}) string {
+				doc, _ := m["didDocument"].(map[string]interface{})
+
+				var parts []string
+
+				for _, sec := range []string{"verificationMethod", "service"} {
+					l, _ := doc[sec].([]interface{})
+					for _, e := range l {
+						em, _ := e.(map[string]interface{})
+						id, _ := em["id"].(string)
+
+						if i := strings.LastIndex(id, "#"); i >= 0 {
+							id = id[i:]
+						}
+
+						if sec == "service" {
+							parts = append(parts, id+"="+workload.SvcMark(em))
+						} else {
+							parts = append(parts, id+"="+externalKeyShown(em))
+						}
+					}
+				}
+
+				return strings.Join(parts, " ")
+			}
+
+			if a, b := summary(sm), summary(lm); a != b {
+				w.fail("C20", "pending/long-vs-short-form", fmt.Sprintf("did%d with pending operations: the short form shows [%s], the long form shows [%s] at the same moment", d.Idx, a, b))
+			}
+
+			k.Count("probe:pending-long-and-short-form-agree")
+		}
+	}
+
 	// the client's own view of its keys moves on
 	switch typ {
 	case operation.TypeUpdate:
